@@ -12,9 +12,16 @@ from collections import Counter, defaultdict
 from pathlib import Path
 
 VERIF = Path(__file__).resolve().parent.parent
-EVID = VERIF / "evidence"
+EVID = Path(os.environ.get("VERIF_EVIDENCE_DIR", str(VERIF / "evidence")))
 PY = "/venv/bin/python"
 PROPS = [f"C{i:02d}" for i in range(1, 21)]
+
+
+def _rel(p: Path) -> str:
+    try:
+        return str(p.relative_to(VERIF))
+    except ValueError:
+        return str(p)
 
 
 def load_prop(pid: str):
@@ -182,10 +189,10 @@ def aggregate(pid, tier, seed, mod, cases, rundir, crashed, hashseeds, git, t0) 
         rp = replay_dir / f"{pid}-{digest([v['kind'], v.get('case'), v.get('what')])}.json"
         rp.write_text(json.dumps({"property": pid, "tier": tier, "seed": seed, **v}, indent=1))
         if printed < 25:
-            print(f"VIOLATION property={pid} replay={rp.relative_to(VERIF)}  kind={v['kind']} :: {v['what'][:300]}")
+            print(f"VIOLATION property={pid} replay={_rel(rp)}  kind={v['kind']} :: {v['what'][:300]}")
             printed += 1
     if len(seen) > printed:
-        print(f"... {len(seen) - printed} further distinct violations (see {replay_dir.relative_to(VERIF)})")
+        print(f"... {len(seen) - printed} further distinct violations (see {_rel(replay_dir)})")
     for f in known["findings"]:
         if kf_hits.get(f["id"]):
             print(f"KNOWN-FINDING: property={pid} {f['what']} [{f['id']}, observed {kf_hits[f['id']]}x this run]")
